@@ -232,3 +232,18 @@ def generator_function_raises_when_consumed_not_when_called(flag: bool, n: int):
     except RuntimeError:
         pass
     assert where == 1, "calling the generator function runs nothing; the exception comes out of list()"
+
+
+@lemma
+def del_name_and_rebinding(n: int):
+    # (moved here from refused_constructs.py: an unbound local is UnboundLocalError, a NameError, since the audit-B merge)
+    x = [n]
+    y = x
+    del x
+    assert y == [n]
+    r = 0
+    try:
+        z = x
+    except NameError:
+        r = 1
+    assert r == 1
